@@ -44,7 +44,7 @@ template <class T> struct SVectorBase
       if(0 <= g_q && g_q < n)
       {
          T t = v[g_q] + x;
-         __CPROVER_havoc_slice(v, (size_t)n * sizeof(T));
+         __CPROVER_havoc_object(v);
          v[g_q] = t;
       }
    }
@@ -58,8 +58,8 @@ template <class T> struct SVectorBase
       int n = o.used; T* v = vals; int* ix = idxs;
       if(n > 0)
       {
-         __CPROVER_havoc_slice(v, (size_t)n * sizeof(T));
-         __CPROVER_havoc_slice(ix, (size_t)n * sizeof(int));
+         __CPROVER_havoc_object(v);
+         __CPROVER_havoc_object(ix);
          if(0 <= g_q && g_q < n) { v[g_q] = o.vals[g_q]; ix[g_q] = o.idxs[g_q]; }
       }
    }
